@@ -236,6 +236,25 @@ func c15xy(c *fw.Ctx, idx int) {
 			return
 		}
 	}
+	// the same four coordinate objects, grouped into segments in the three possible
+	// ways, one call after the other
+	if r.Chance(1, 3) {
+		A, B, C, D := co(s1.a), co(s1.b), co(s2.a), co(s2.b)
+		groups := []struct {
+			p, q, u, v geom.Coord
+			e          [4]exact.P
+		}{{A, B, C, D, [4]exact.P{ea, eb, ec, ed}}, {B, C, D, A, [4]exact.P{eb, ec, ed, ea}}, {A, C, B, D, [4]exact.P{ea, ec, eb, ed}}, {A, B, C, D, [4]exact.P{ea, eb, ec, ed}}}
+		for gi, gr := range groups {
+			var got float64
+			if c.Guard("panic", func() { got = xy.DistanceFromLineToLine(gr.p, gr.q, gr.u, gr.v) }) {
+				return
+			}
+			c.Count("same_four_coordinates_regrouped")
+			if !c15Judge(c, fmt.Sprintf("xy.DistanceFromLineToLine (grouping %d of the same four coordinate objects)", gi+1), got, exact.SegSegDist2(gr.e[0], gr.e[1], gr.e[2], gr.e[3]), tol) {
+				return
+			}
+		}
+	}
 	// point-segment: each endpoint of one against the other segment, plus a random point
 	p := pt()
 	ep := exact.Pt(p[0], p[1])
@@ -540,7 +559,29 @@ func c15xyz(c *fw.Ctx, idx int) {
 	}
 	var a, b, cc, d [3]float64
 	class := ""
-	switch r.Intn(16) {
+	switch r.Intn(17) {
+	case 16:
+		// a segment a million units long and one of a unit or two, in any relative
+		// position (next to the long one, beyond its ends, across it), the short
+		// one's ends at different distances
+		class = "unit-against-long"
+		ax := r.Intn(3)
+		var u [3]float64
+		u[ax] = float64(int64(1)<<20 - int64(r.Range(0, 40000)))
+		u[(ax+1)%3] = float64(r.Range(-3, 3))
+		u[(ax+2)%3] = float64(r.Range(-3, 3))
+		a = [3]float64{float64(r.Range(-9, 9)), float64(r.Range(-9, 9)), float64(r.Range(-9, 9))}
+		if r.Bool() {
+			a = lin(a, u, -0.5)
+			a = [3]float64{math.Round(a[0]), math.Round(a[1]), math.Round(a[2])}
+		}
+		b = lin(a, u, 1)
+		at := lin(a, u, []float64{0.5, 0.25, 0, 1, -0.001, 1.001}[r.Intn(6)])
+		cc = [3]float64{math.Round(at[0]) + float64(r.Range(-3, 3)), math.Round(at[1]) + float64(r.Range(-3, 3)), math.Round(at[2]) + float64(r.Range(-3, 3))}
+		d = [3]float64{cc[0] + float64(r.Range(-2, 2)), cc[1] + float64(r.Range(-2, 2)), cc[2] + float64(r.Range(-2, 2))}
+		if r.Bool() {
+			a, b, cc, d = cc, d, a, b
+		}
 	case 14, 15:
 		// nearly parallel segments in general position: a long direction with
 		// full-width components, the second direction differing from a small
